@@ -206,6 +206,8 @@ def micro (c : Cfg) (deps : List Dep) (s : St) (t : Nat) (sig : Sig) : Next :=
             let o := fr.a
             let s1 := emit { s with objs := setAt s.objs o { (s.objs.getD o ⟨n, false, .failed, .done⟩) with dep := .failed } } (.connDeployFail n)
             let s2 := emit { s1 with depmap := delete s1.depmap n } (.depPop n)
+            -- `self.deployments_map.pop(name)` raises KeyError when a concurrent undeploy removed the entry: no `set()`
+            if (lookup s1.depmap n).isNone then pop s2 .raise else
             match lookup s2.evmap n with
             | some e => pop (emit (setEvent s2 e) (.evSet n)) .raise
             | none => pop s2 .raise
@@ -323,8 +325,9 @@ def exec (c : Cfg) (deps : List Dep) : Nat → St → Nat → Sig → St
       | .stop s' =>
           -- a finished child may complete the gather of its parent
           match (getTask s' t).st, (getTask s' t).parent with
-          | .done _, some p =>
-              if (getTask s' p).st = .waitChildren && childrenDone s' p then setSt s' p .ready else s'
+          | .done ok, some p =>
+              -- `asyncio.gather`: the first exception of a child is delivered at once, otherwise when all are done
+              if (getTask s' p).st = .waitChildren && (!ok || childrenDone s' p) then setSt s' p .ready else s'
           | _, _ => s'
 
 inductive Act
